@@ -1,8 +1,8 @@
 SPECIFICATION Spec
 CONSTANTS
-  Files = {1}
+  Files = {}
   Texts = {3}
-  Classes = {"io", "simple", "proto", "stop", "remote"}
+  Classes = {"stop", "remote"}
   MaxInject = 1
   MaxNoise = 0
   WithBg = FALSE
